@@ -47,6 +47,9 @@ static void arm(const char *what, size_t inlen) {
     /* far above anything a terminating call can need: the INI parser sizes every replacement buffer for the worst case, (|value| / |token|) * |replacement|, i.e. quadratic in the input
      * (an 18 KB value referenced through a 6-byte ${k} asked for 108 MB in one malloc - wasteful, but it terminates; soak seed 3) */
     vf_bytes_budget = vf_ledger_live_bytes() + (long)(64 * inlen) + (64L << 20) + (long)(inlen * inlen);
+    /* every call is entered with a stale errno value (EINTR after a signal, ENOENT of a lookup miss, ...) chosen by (case, call number within the case) */
+    static long last_case = -1; static unsigned nth; if (last_case != vf_cur_case) { last_case = vf_cur_case; nth = 0; }
+    errno = vf_entry_errno_for((uint64_t)vf_cur_case * 0x9E3779B97F4A7C15ULL + (uint64_t)(nth++) * 0xC2B2AE3D27D4EB4FULL + VF.seed);
 }
 static void disarm(void) { vf_alloc_budget = 0; vf_bytes_budget = 0; vf_cpu_disarm(); }
 
